@@ -592,7 +592,8 @@ def bcLoopF (C : Ctx) : Nat → Bytes → BC → DM BC
       else (fail "unknown field" : Res _)
 
 /-- `ugo.AttrModuleName` -/
-def attrModuleName : Bytes := "__module_name__".toUTF8.toList
+def attrModuleName : Bytes :=   -- "__module_name__"
+  [95, 95, 109, 111, 100, 117, 108, 101, 95, 110, 97, 109, 101, 95, 95]
 
 def lookupKV {ν} (k : Bytes) : List (Bytes × ν) → Option ν
   | [] => none
